@@ -306,6 +306,8 @@ def gen_chain(rng, root, risky):
             ch.c = "%s[%d]" % (ch.c, i)
             seg[1] = seg[1] + "[%d]" % i
             cur = (base, ptr, dims[1:])
+            if not cur[2] and ptr == 0 and base[0] == "agg" and base[1].kind == "union":
+                ch.features.add("element of an array of unions")
             continue
         if ptr > 0 and base[0] != "func":
             # pointer to scalar/pointer/void: stop, or go through it
